@@ -236,6 +236,7 @@ def run(F, chk):
                            "index is dominated by a comparison of that index with the size of the same container or with the "
                            "count member its reader sizes it to")
     import arrays, paths as _paths, c02 as _c02
+    arrays_mod = arrays
     from paths import render as _render
     S5 = _paths.Summarizer(F, _c02.make_primitive(F), mode=flow.MODE_READ, value_proxies=True,
                            node_kinds=("Call", "OpCall", "Construct", "Assign", "Unary"))
@@ -290,6 +291,91 @@ def run(F, chk):
                               "redirected to a block with fewer elements, or an index taken from a sibling list, reads past the "
                               "array" % (fn["name"], show(b), i["name"], " or ".join(bounds)))
     chk.floor(R5, 5)
+
+    # ---------------------------------------------------------------- R15.6
+    R6 = chk.rule("R15.6", "in load / query / save / copy code, a loop bounded by a block's element counter that indexes one of the block's "
+                           "own arrays is not preceded, in the same function, by a call that re-derives that counter from another "
+                           "block's data without resizing the array: a redirected reference makes the two disagree")
+    Sw = _paths.Summarizer(F, _c02.make_primitive(F), mode=None, value_proxies=False,
+                           node_kinds=("Call", "OpCall", "Construct", "Assign", "Unary"))
+    # counters: const no-arg getters that return one member (GetNumVertices -> numVertices)
+    getter_of = {}
+    for f_ in F.fns.values():
+        if f_.get("cls") and f_.get("const") and not f_.get("params") and f_.get("body") and F.derives_from(f_["cls"], "nifly::NiObject"):
+            rets = [x for x in walk(f_["body"]) if x["k"] == "Return" and is_node(x.get("e"))]
+            if len(rets) == 1:
+                e_ = peel(rets[0]["e"])
+                if is_node(e_) and e_["k"] == "Member" and e_.get("mk", "field") == "field" and (e_.get("base") is None or e_["base"]["k"] == "This"):
+                    getter_of[f_["id"]] = e_["name"]
+    n6 = 0
+    for fid in sorted(scope3):
+        fn = F.fns.get(fid)
+        if not fn or fn.get("tmpl") == "pattern" or fn.get("cls") != "nifly::NifFile" or not fn.get("body"):
+            continue
+        order = {id(x): i_ for i_, x in enumerate(walk(fn["body"]))}
+        for lp in walk(fn["body"]):
+            if lp["k"] != "For" or not is_node(lp.get("cond")) or lp["cond"]["k"] != "Binary" or lp["cond"]["op"] != "<":
+                continue
+            bound = peel(lp["cond"]["r"])
+            obj = counter = None
+            if is_node(bound) and bound["k"] == "Call" and bound.get("fid") in getter_of and is_node(bound.get("recv")):
+                obj, counter = bound["recv"], getter_of[bound["fid"]]
+            elif is_node(bound) and bound["k"] == "Member" and is_node(bound.get("base")) and bound.get("mk", "field") == "field":
+                obj, counter = bound["base"], bound["name"]
+            if obj is None or not (is_node(peel(obj)) and peel(obj)["k"] == "Ref"):
+                continue
+            oid = peel(obj)["id"]
+            ivar = peel(lp["cond"]["l"])
+            arrays = set()
+            for x in walk(lp["body"]):
+                if x["k"] == "Subscript" and is_node(peel(x["idx"])) and peel(x["idx"]).get("id") == (ivar or {}).get("id"):
+                    b_ = peel(x["base"])
+                    if is_node(b_) and b_["k"] == "Member" and is_node(b_.get("base")) and peel(b_["base"]).get("id") == oid and \
+                            arrays_mod._is_dyn_container(b_.get("ct") or b_.get("t")):
+                        arrays.add(b_["name"])
+            if not arrays:
+                continue
+            # earlier calls on the same object that write the counter
+            for c_ in walk(fn["body"]):
+                if c_["k"] != "Call" or order.get(id(c_), 0) > order.get(id(lp), 0) or not is_node(c_.get("recv")):
+                    continue
+                r_ = peel(c_["recv"])
+                if not (is_node(r_) and r_["k"] == "Ref"):
+                    continue
+                same = r_["id"] == oid
+                if not same:
+                    # an upcast alias of the same object (`auto dyn = dynamic_cast<D*>(base)`)
+                    for d_ in walk(fn["body"]):
+                        if d_["k"] == "Decl":
+                            for v_ in d_.get("vars", []):
+                                if v_["id"] == oid and is_node(v_.get("init")) and any(
+                                        y["k"] == "Ref" and y.get("id") == r_["id"] for y in walk(v_["init"])):
+                                    same = True
+                if not same:
+                    continue
+                writes_counter, touched = False, set()
+                for t_ in F.call_targets(c_):
+                    for ev in Sw.events(t_):
+                        if ev.kind == "mut" and ev.path and ev.path[0][0] == "this" and len(ev.path) >= 2:
+                            if ev.path[1] == counter and len(ev.path) == 2:
+                                writes_counter = True
+                            touched.add(ev.path[1])
+                if not writes_counter:
+                    continue
+                for a_ in sorted(arrays):
+                    resized_between = any(
+                        y["k"] == "Call" and y.get("short") in ("resize", "assign") and is_node(y.get("recv")) and peel(y["recv"])["k"] == "Member"
+                        and peel(y["recv"])["name"] == a_ and order.get(id(c_), 0) < order.get(id(y), 0) < order.get(id(lp), 0)
+                        for y in walk(fn["body"]))
+                    ok = a_ in touched or resized_between
+                    n6 += 1
+                    chk.instance(R6, ok=ok, sample={"fn": fn["name"], "counter": counter, "rederived_by": c_.get("fn"), "array": a_})
+                    if not ok:
+                        chk.violation("R15.6", "C15/R15.6:%s:%s:%s" % (fn["name"], a_, counter), where(fn, lp),
+                                      "%s indexes `%s` by a loop bounded by `%s`, but %s has just re-derived that counter from other "
+                                      "data without resizing `%s`: a reference redirected to a block with more elements reads past "
+                                      "the array" % (fn["name"], a_, counter, c_.get("fn"), a_))
+    chk.floor(R6, 1)
 
     chk.assumptions += [
         "pointers handed out by block payload classes (HasX()/XRef() pairs, index-tested accessors) follow those classes' own "
